@@ -423,6 +423,10 @@ def _generator_rule(db, rep):
     r8 = rep.rule('r8', 'SELF-REFERENCE: a schema object whose member refers back to the object (the ordered list asks its owner for the kind of a constituent) is never copied or moved memberwise, otherwise the copy orders its list by the kinds stored in the original', 5)
     from rules.shared_selfref import selfref_rule
     selfref_rule(db, r8, ['ccl::semantic::', 'ccl::ops::', 'ccl::oss::', 'ccl::src::'])
+    r9 = rep.rule('r9', 'REGISTRY-KEPT (shared with C12 r5): the group insertions (MergeWith / InsertCopy of a group or of records), interpreted, leave the registry of taken names holding the alias of every constituent, '
+                        'every copy recorded and every alias unique', 2)
+    from rules import C12
+    C12.merge_evaluated(db, r9)
     r7 = rep.rule('r7', 'VIEWS (shared with C07 r1): a membership change of schema / thesaurus storage is followed by the removal or rebuild in every derived graph', 10)
     from rules import C07
     from engine.modset import ModSets
